@@ -199,6 +199,14 @@ def build_harness(cfg, pid, log):
             hlp = os.path.join(RUN, pid, "hlib_ov.go")
             open(hlp, "w").write(hl)
             ov["Replace"][os.path.join(REPO, "utils/verifhlib/hlib.go")] = hlp
+            # sub-packages of hlib (e.g. fstrace) keep their package names
+            for root, _, fs in os.walk(os.path.join(HARN, "hlib")):
+                rel = os.path.relpath(root, os.path.join(HARN, "hlib"))
+                if rel == ".":
+                    continue
+                for fn in fs:
+                    if fn.endswith(".go") and not fn.endswith("_test.go"):
+                        ov["Replace"][os.path.join(REPO, "utils/verifhlib", rel, fn)] = os.path.join(root, fn)
             ovp = os.path.join(RUN, pid, "overlay.json")
             json.dump(ov, open(ovp, "w"))
             out_bin = os.path.join(HARN, "bin", "ov_" + pid)
